@@ -256,6 +256,8 @@ namespace cds { namespace intrusive {
                                     m_idx = idx;
                                     return;
                                 }
+                                // the slot has been changed (e.g. converted to an array node): re-read it
+                                continue;
                             }
                             ++idx;
                         }
@@ -314,6 +316,8 @@ namespace cds { namespace intrusive {
                                     m_idx = idx;
                                     return;
                                 }
+                                // the slot has been changed (e.g. converted to an array node): re-read it
+                                continue;
                             }
                             --idx;
                         }
@@ -1148,6 +1152,11 @@ namespace cds { namespace intrusive {
                         stats().onEraseSuccess();
                         return true;
                     }
+                }
+                else if ( slot.bits() != 0 ) {
+                    // the slot has been expanded to an array node: the iterator's item (if it is still in the set)
+                    // has been moved one level down, erase it by its hash
+                    return unlink( *iter.pointer());
                 }
                 else
                     return false;
